@@ -45,6 +45,10 @@ func replay(cw *caseWriter, path string) {
 					os.RemoveAll(dir)
 				}
 			}
+		case 104:
+			in2, obs, leaders := c101RunI(in, true, in[0]+1, true)
+			c102monitorI(cw, tag, in2, obs, true, true)
+			cw.emit(tag, 104, in2, obs, leaders >= 1)
 		case 103:
 			in2, obs, leaders := c101RunT(in, true, in[0]+1)
 			c102monitorS(cw, tag, in2, obs, true)
@@ -117,6 +121,10 @@ func main() {
 		c15failChild(os.Args[2:])
 		return
 	}
+	if len(os.Args) >= 2 && os.Args[1] == "c104batch" {
+		c104Batch()
+		return
+	}
 	if len(os.Args) >= 2 && os.Args[1] == "c103batch" {
 		c103Batch()
 		return
@@ -182,6 +190,8 @@ func main() {
 		runC15(cw, tier, seed)
 	case "c15fail":
 		runC15fail(cw, tier, seed)
+	case "c104":
+		runC104(cw, tier, seed, 0)
 	case "c103":
 		runC103(cw, tier, seed, 0)
 	case "c102":
